@@ -15,6 +15,23 @@
 
 /// one row of `accounts` (V1__base.sql:19): `account_id INTEGER PRIMARY KEY`, `identifier TEXT NOT NULL UNIQUE`, `name`
 pub ghost struct AccountRowV { pub row_id: int, pub identifier: Seq<char>, pub name: Seq<char> }
+/// a remote server origin: its display name and its URL (text)
+pub ghost struct ServerV { pub name: Seq<char>, pub url: Seq<char> }
+/// the rows "INSERT INTO servers (account_id, .., name, url)" adds for account `aid`, one per element, in order
+pub open spec fn acct_servers(aid: int, rows: Seq<ServerV>) -> Seq<(int, ServerV)> { Seq::new(rows.len(), |i: int| (aid, rows[i])) }
+/// `UpgradeOptions::remap_servers` applied to ONE origin (db_import.rs:309): when the table has the origin's url as
+/// a key the origin becomes `Origin::new(val.to_string(), val.clone())` (url AND name are the new url's text),
+/// otherwise it is unchanged
+pub open spec fn remap_one(m: Map<Seq<char>, Seq<char>>, s: ServerV) -> ServerV {
+    if m.contains_key(s.url) { ServerV { name: m[s.url], url: m[s.url] } } else { s }
+}
+/// the remap applied to a server list: SAME LENGTH (none dropped, none added), same order
+pub open spec fn remap_all(m: Map<Seq<char>, Seq<char>>, l: Seq<ServerV>) -> Seq<ServerV> { Seq::new(l.len(), |i: int| remap_one(m, l[i])) }
+pub proof fn lemma_no_servers_added(s: Seq<(int, ServerV)>, aid: int)
+    ensures s + acct_servers(aid, Seq::<ServerV>::empty()) == s,
+{
+    assert(s + acct_servers(aid, Seq::<ServerV>::empty()) =~= s);
+}
 /// the ghost database
 pub ghost struct UDbV {
     /// account_events, folder_events, device_events, file_events (prelude/dblog_spec.rs)
@@ -27,6 +44,8 @@ pub ghost struct UDbV {
     pub login: Seq<(int, int)>,
     /// account_device_folder: (account_id, folder_id), in insertion order
     pub device: Seq<(int, int)>,
+    /// servers (V1__base.sql `servers`): (account_id, name + url), in rowid order
+    pub servers: Seq<(int, ServerV)>,
 }
 
 // ---- record -> row ---------------------------------------------------------------------------
@@ -261,7 +280,7 @@ pub proof fn lemma_created_folder(db: UDbV, account_id: int, rid: int, created: 
         &&& forall|recs: Log| #![trigger rows_are(ev, recs)] rows_are(ev, recs) ==> log_of(d3.ev, Tbl::FolderEvents, rid) == recs
         &&& forall|t: Tbl, o: int| !(t == Tbl::FolderEvents && o == rid) ==> #[trigger] own(d3.ev, t, o) == own(db.ev, t, o)
         &&& kv_not_elsewhere(db.fold, rid, cols_kv(rows)) ==> others_same(db.fold, d3.fold, f, f, rid)
-        &&& d3.fold.rest == db.fold.rest && d3.accounts == db.accounts && d3.login == db.login && d3.device == db.device
+        &&& d3.fold.rest == db.fold.rest && d3.accounts == db.accounts && d3.login == db.login && d3.device == db.device && d3.servers == db.servers
     }),
 {
     let f = c.identifier;
